@@ -121,3 +121,9 @@ Definition block_index_ok (c : list rcell * option numbers) : bool :=
   | _, _ => false
   end.
 Definition check_block_index (cs : list (list rcell * option numbers)) : list nat := idx_false (map block_index_ok cs) 0.
+
+(* 10. bookkeeping of a persistent query after rotation: the segment keeps its pqmr file and stays off the
+   empty-results list iff some block matched (events given as their ingest-time match) *)
+Definition pqs_flag_ok (c : list (list bool) * bool) : bool :=
+  Bool.eqb (seg_nonempty bool (fun b => b) (fst c)) (snd c).
+Definition check_pqs_flag (cs : list (list (list bool) * bool)) : list nat := idx_false (map pqs_flag_ok cs) 0.
